@@ -448,7 +448,9 @@ pub fn build(tier: Tier) -> CheckDef {
         level: "model_checking",
         rule: "small-scope exhaustive enumeration of note sequences (every residue of namesz/descsz modulo the alignment, power-of-two and other alignments, typed and untyped notes, garbage tails and every truncation) built by the reference builder; the real NoteIterator's output (variant, type, name/descriptor byte ranges by pointer, ABI-tag words, name_str) must equal the reference walk. non-trivial = sequence that yields at least one note".into(),
         assumptions: vec!["note headers are three 32-bit words for both classes (as the property states)".into()],
-        spaces: vec![Box::new(Sequences { three: tier == Tier::Thorough, maxsz: tier.pick(20, 32) }), Box::new(Long), Box::new(ThroughFile)],
+        spaces: vec![Box::new(Sequences { three: tier == Tier::Thorough, maxsz: tier.pick(20, 32) }), Box::new(Long), Box::new(ThroughFile),
+            // the note views of the tiny-full objects do not depend on which platform the header names
+            Box::new(super::c02::Platforms { sk: crate::skeleton::tiny_skeletons().into_iter().filter(|s| s.name.ends_with("linker-order")).collect() })],
         abort_is_violation: false,
         hang_is_violation: true,
         exhaustive: true,
